@@ -4,7 +4,7 @@
    (see DESIGN.md Appendix A for the yield-point tables).  Model only. *)
 From Coq Require Import List ZArith Bool Arith.
 From RecordUpdate Require Import RecordUpdate.
-From FV Require Import ListLemmas Kernel SrcFragments TieB World.
+From FV Require Import ListLemmas Kernel SrcFragments TieB Accounting World.
 From FV Require StoreB.
 Import ListNotations.
 Open Scope Z_scope.
@@ -150,11 +150,11 @@ Definition update_state_rep (w : world) (n : nat) : world :=
       let '(p, b) := nsrep nd in
       let add (k : nat) (c : bool) (ts : list Z) := if c then upd k (fun v => v + el) ts else ts in
       let ts := ntstate nd in
-      let ts := add 1%nat ((p =? 0) && (b =? 0)) ts in           (* IDLE *)
-      let ts := add 3%nat ((b >? 0) && (p =? 0)) ts in           (* ALL_ACTIVE_BLOCKED *)
-      let ts := add 2%nat (p >? 0) ts in                         (* ATLEAST_ONE_PROCESSING *)
-      let ts := add 4%nat ((p >? 0) && (b =? 0)) ts in           (* ALL_ACTIVE_PROCESSING *)
-      let ts := add 5%nat (b >? 0) ts in                         (* ATLEAST_ONE_BLOCKED *)
+      let ts := add 1%nat (c_idle p b) ts in                     (* IDLE *)
+      let ts := add 3%nat (c_allblk p b) ts in                   (* ALL_ACTIVE_BLOCKED *)
+      let ts := add 2%nat (c_oneproc p b) ts in                  (* ATLEAST_ONE_PROCESSING *)
+      let ts := add 4%nat (c_allproc p b) ts in                  (* ALL_ACTIVE_PROCESSING *)
+      let ts := add 5%nat (c_oneblk p b) ts in                   (* ATLEAST_ONE_BLOCKED *)
       let '(np, nb) := count_threads nd in
       let w1 := upd_node w n (fun x => x <| ntstate := ts |> <| nsrep := (np, nb) |> <| nlast := Some t |>) in
       if (np + nb >? Z.of_nat (nwcap nd)) then crashw w1 (CAssert 40) else w1
@@ -761,7 +761,7 @@ Definition splitter_block (w : world) (p : nat) : world * yld :=
       | None, Some c => (crashw w c, YDone)
       | None, None =>
           if (length (nins nd) <? 1)%nat || (length (nouts nd) <? 1)%nat then (crashw w (CAssert 123), YDone) else
-          let w := upd_node w n (fun x => x <| nstate := 0%nat |>) in
+          let w := upd_node w n (fun x => x <| nstate := 0%nat |> <| nlast := Some (wnow w) |>) in
           let '(w, t) := w_timeout w (nsetup nd) in (setpc w p 1, YEvent t)
       end
   | 1%nat => splitter_head (update_state w n 1) p n
@@ -838,7 +838,7 @@ Definition combiner_block (w : world) (p : nat) : world * yld :=
       | Some c => (crashw w c, YDone)
       | None =>
           if (length (nins nd) <? 1)%nat || (length (nouts nd) <? 1)%nat then (crashw w (CAssert 131), YDone) else
-          let w := upd_node w n (fun x => x <| nstate := 0%nat |>) in
+          let w := upd_node w n (fun x => x <| nstate := 0%nat |> <| nlast := Some (wnow w) |>) in
           let '(w, t) := w_timeout w (nsetup nd) in (setpc w p 1, YEvent t)
       end
   | 1%nat => combiner_head (update_state w n 1) p n
@@ -878,7 +878,7 @@ Definition combiner_block (w : world) (p : nat) : world * yld :=
       let w := occupancy w n true in
       (* print(... self.item_in_process.id ...): None when nothing was gathered in this round *)
       if Nat.eqb (pix pr) 0 then (crashw w (CAttr 136), YDone) else
-      let w := check_state w n in
+      let w := update_state w n 2 in
       let w := upd_proc w p (fun x => x <| pt0 := wnow w |>) in
       let '(w, t) := w_timeout w (pdl pr) in (setpc w p 6, YEvent t)
   | _ =>
@@ -1000,11 +1000,11 @@ Definition finalize_node (T : Z) (nd : node) : option node :=
           let '(p, b) := nsrep nd1 in
           let add (k : nat) (c : bool) (ts : list Z) := if c then upd k (fun v => v + d) ts else ts in
           let ts := ntstate nd1 in
-          let ts := add 1%nat ((p =? 0) && (b =? 0)) ts in
-          let ts := add 3%nat ((b >? 0) && (p =? 0)) ts in
-          let ts := add 2%nat (p >? 0) ts in
-          let ts := add 4%nat ((p >? 0) && (b =? 0)) ts in
-          let ts := add 5%nat (b >? 0) ts in
+          let ts := add 1%nat (c_idle p b) ts in
+          let ts := add 3%nat (c_allblk p b) ts in
+          let ts := add 2%nat (c_oneproc p b) ts in
+          let ts := add 4%nat (c_allproc p b) ts in
+          let ts := add 5%nat (c_oneblk p b) ts in
           Some (nd1 <| ntstate := ts |> <| nsrep := (np, nb) |> <| nlast := Some T |>)
       end
   | NSplitter | NCombiner =>
